@@ -11,6 +11,8 @@ pub mod c16;
 pub mod c19;
 pub mod c21;
 pub mod c22;
+pub mod c24;
+pub mod c32;
 pub mod util;
 
 pub type RunFn = fn(&mut Ctx);
@@ -25,6 +27,8 @@ pub const REGISTRY: &[(&str, RunFn, ReplayFn)] = &[
     ("C19", c19::run, c19::replay),
     ("C21", c21::run, c21::replay),
     ("C22", c22::run, c22::replay),
+    ("C24", c24::run, c24::replay),
+    ("C32", c32::run, c32::replay),
 ];
 
 pub fn find(id: &str) -> Option<(RunFn, ReplayFn)> {
